@@ -12,6 +12,7 @@
 package c11
 
 import (
+	"encoding/json"
 	"fmt"
 	"io"
 	"net/http"
@@ -659,10 +660,52 @@ func TestHistories(t *testing.T) {
 // retention period (30 s) at 1 ms and 1 s resolution.
 func TestBoundaryGrid(t *testing.T) {
 	r := ev.New(t, "C11")
+	runOne := func(h hist) {
+		r.Case()
+		e, err := newEnv()
+		if err != nil {
+			report(t, r, nil, h, err)
+		}
+		err = e.run(h, true)
+		e.close()
+		for c, n := range e.classes {
+			r.ClassN(c, int64(n))
+		}
+		if err != nil {
+			report(t, r, e, h, err)
+		}
+		if e.nt {
+			r.NonTrivial(ev.JSON(h), func() any { return h })
+		}
+	}
+	if p := os.Getenv("VERIF_REPLAY"); p != "" && !strings.HasSuffix(p, ".fail") {
+		b, err := os.ReadFile(p)
+		if err != nil {
+			t.Fatalf("VERIF-INFRA: cannot read replay %s: %v", p, err)
+		}
+		var f struct {
+			Failure struct {
+				Case struct {
+					Hist hist `json:"history"`
+				} `json:"case"`
+			} `json:"failure"`
+		}
+		if err := json.Unmarshal(b, &f); err != nil || len(f.Failure.Case.Hist.Events) == 0 {
+			t.Fatalf("VERIF-INFRA: replay %s holds no history (%v)", p, err)
+		}
+		runOne(f.Failure.Case.Hist)
+		return
+	}
 	r.SetExhaustive(true)
 	phases := []int64{0, 1, 2500, 4999}
 	d1s := []int64{0, 1, 1000, 4999, 5000, 5001, 10000, 25001, 29000, 29999}
 	totals := []int64{0, 1000, 5001, 25000, 29000, 29999, 30000, 30001, 31000, 34999, 35000, 35001, 36000, 40000, 61000, 66000}
+	if ev.Tier() == "thorough" {
+		phases = []int64{0, 1, 999, 1000, 2500, 4000, 4999}
+		d1s = append(d1s, 2500, 15000, 20000, 24999, 25000)
+		totals = append(totals, 1, 4999, 5000, 10000, 20000, 28999, 29001, 30999, 31001, 39999, 40001, 59999, 60000, 60001, 65000, 65001)
+	}
+	r.Note(fmt.Sprintf("grid: request phase in the tick period %v ms x request->reload %v ms x reload kind {data,file,raw,revert-df} x {one reload, a second reload half-way} x request->response %v ms", phases, d1s, totals))
 	kinds := []string{"data", "file", "raw", "revert-df"}
 	for _, phase := range phases {
 		for _, d1 := range d1s {
@@ -681,23 +724,7 @@ func TestBoundaryGrid(t *testing.T) {
 							rest -= step
 						}
 						evs = append(evs, event{K: "adv", Ms: rest}, event{K: "resp", Txn: 1}, event{K: "req", Txn: 2}, event{K: "resp", Txn: 0})
-						h := hist{IDs: []string{"w", "s", "n"}, Events: evs}
-						r.Case()
-						e, err := newEnv()
-						if err != nil {
-							report(t, r, nil, h, err)
-						}
-						err = e.run(h, true)
-						e.close()
-						for c, n := range e.classes {
-							r.ClassN(c, int64(n))
-						}
-						if err != nil {
-							report(t, r, e, h, err)
-						}
-						if e.nt {
-							r.NonTrivial(ev.JSON(h), func() any { return h })
-						}
+						runOne(hist{IDs: []string{"w", "s", "n"}, Events: evs})
 					}
 				}
 			}
@@ -971,7 +998,7 @@ func runBurst(e *env, b burst) error {
 		for _, k := range idx {
 			k.checked = false
 		}
-		got := sigOf(e.acc.GetTxnPoliciesData(config.TxnID("burst/"+stage)))
+		got := sigOf(e.acc.GetTxnPoliciesData(config.TxnID("burst/" + stage)))
 		if got != final {
 			return fmt.Errorf("%s: a new transaction at +%s was given %q; the current version is %q", stage, now.Sub(start), got, final)
 		}
